@@ -519,6 +519,11 @@ def parse_template(path):
     while i < len(raw):
         ln = raw[i]
         s = ln.strip()
+        if s.startswith("//@arm "):
+            s = "//@fn " + s[len("//@arm "):]
+            is_arm = True
+        else:
+            is_arm = False
         if s.startswith("//@fn ") or s.startswith("//@item ") or s.startswith("//@lemma "):
             if cur:
                 blocks.append(("text", cur, cur_start))
@@ -558,8 +563,9 @@ def parse_template(path):
                 blocks.append(("lemma", spec))
                 cur_start = i + 1
                 continue
-            rel, impl, name = [x.strip() for x in s[len("//@fn "):].split("|")]
-            spec = {"file": rel, "impl": impl, "name": name, "props": [], "ret": None, "clauses": [],
+            hdr = [x.strip() for x in s[len("//@fn "):].split(" | ")]
+            rel, impl, name = hdr[0], hdr[1], hdr[2]
+            spec = {"file": rel, "impl": impl, "name": name, "arm": (hdr[3], hdr[4]) if is_arm else None, "props": [], "ret": None, "clauses": [],
                     "loops": [], "rewrites": [], "inserts": [], "sigs": [], "attrs": [], "tline": i + 1,
                     "as": None, "novis": False, "external_body": False}
             i += 1
@@ -573,6 +579,10 @@ def parse_template(path):
                     spec["_last"]["text"] += " " + d[1:].strip()
                     i += 1
                     continue
+                if d.startswith("|") and spec.get("_lastkey") in ("epilogue", "prologue"):
+                    spec[spec["_lastkey"]] += " " + d[1:].strip()
+                    i += 1
+                    continue
                 key, _, val = d.partition(":")
                 key = key.strip()
                 val = val.strip()
@@ -581,6 +591,7 @@ def parse_template(path):
                 if mt:
                     key, ctags = mt.group(1), mt.group(2).split()
                 spec["_last"] = None
+                spec["_lastkey"] = key
                 if key == "props":
                     spec["props"] = val.split()
                 elif key == "ret":
@@ -602,7 +613,7 @@ def parse_template(path):
                     spec.setdefault("rewrites_re", []).append((rule, frm, to, key.endswith("?")))
                 elif key == "insert":
                     pos, anchor, text = [x.strip() for x in val.split(" | ", 2)]
-                    spec["inserts"].append((pos, anchor, text))
+                    spec["inserts"].append((pos, anchor.replace("\\n", "\n"), text))
                 elif key == "closure":
                     parts = [x.strip() for x in val.split(" | ")]
                     spec.setdefault("closures", []).append({"n": int(parts[0]), "params": parts[1], "ret": parts[2],
@@ -610,6 +621,8 @@ def parse_template(path):
                                                             "let": parts[4] if len(parts) > 4 else "-"})
                 elif key == "f64cmp":
                     spec["f64cmp"] = True
+                elif key == "epilogue":
+                    spec["epilogue"] = spec.get("epilogue", "") + " " + val
                 elif key == "prologue":
                     spec["prologue"] = spec.get("prologue", "") + " " + val
                 elif key == "sig":
@@ -626,6 +639,7 @@ def parse_template(path):
                 i += 1
             i += 1
             spec.pop("_last", None)
+            spec.pop("_lastkey", None)
             blocks.append(("fn", spec))
             cur_start = i + 1
             continue
@@ -744,6 +758,39 @@ def generate(unit, template_path, canary=False):
             s0, bo, bc = src.find_fn(spec["name"], ranges)
             sig = src.text[s0:bo].rstrip()
             body = src.text[bo:bc + 1]
+            if spec.get("arm"):
+                # arm-level extraction: the block of ONE match arm of the function, wrapped in a synthesized
+                # signature over the arm's bound variables (the signature is template text; the block is /repo text)
+                arm_rx, arm_sig = spec["arm"]
+                fmask = src.mask[bo:bc + 1]
+                hits = list(re.finditer(arm_rx, fmask))
+                if len(hits) != 1:
+                    raise AnchorLost(f"{spec['file']}::{spec['name']}: arm pattern `{arm_rx}` matched {len(hits)}x")
+                k = hits[0].end()
+                depth = 0
+                arrow = None
+                while k < len(fmask) - 1:
+                    ch = fmask[k]
+                    if ch in "([{":
+                        depth += 1
+                    elif ch in ")]}":
+                        depth -= 1
+                    elif depth <= 0 and fmask.startswith("=>", k):
+                        arrow = k
+                        break
+                    k += 1
+                if arrow is None:
+                    raise AnchorLost(f"{spec['file']}::{spec['name']}: no `=>` after arm pattern")
+                b0 = arrow + 2
+                while fmask[b0] in " \n\t":
+                    b0 += 1
+                if fmask[b0] != "{":
+                    raise AnchorLost(f"{spec['file']}::{spec['name']}: arm body is not a block")
+                b1 = match_brace(fmask, b0)
+                s0 = bo + b0
+                bo, bc = bo + b0, bo + b1
+                sig = arm_sig
+                body = src.text[bo:bc + 1]
             where = f"{spec['file']}:{line_of(src.text, s0)}::{spec['name']}"
             body_hash = hashlib.sha256((sig + body).encode()).hexdigest()[:16]
             # --- signature
@@ -794,6 +841,24 @@ def generate(unit, template_path, canary=False):
                     g.rewrites.append({"rule": "R3+R10", "where": where, "before": body[a:be], "after": new})
                     body = body[:a] + new + body[be:]
             for pos, anchor, text in spec["inserts"]:
+                if pos == "after-call":
+                    # anchor = `<callee>#<k>`: after the statement containing the k-th call of <callee> (robust against
+                    # changes of the arguments and of formatting)
+                    callee, _, kth = anchor.partition("#")
+                    bm = mask_rust(body)
+                    calls = [m for m in re.finditer(r"\b" + re.escape(callee) + r"\s*\(", bm)]
+                    kth = int(kth or 0)
+                    if kth >= len(calls):
+                        g.rewrites.append({"rule": "R10", "where": where, "before": anchor, "after": f"{pos}: {text}", "missed": True, "count": len(calls)})
+                        continue
+                    close = match_brace(bm, calls[kth].end() - 1)
+                    semi = bm.find(";", close)
+                    if semi < 0:
+                        g.rewrites.append({"rule": "R10", "where": where, "before": anchor, "after": f"{pos}: {text}", "missed": True})
+                        continue
+                    g.rewrites.append({"rule": "R10", "where": where, "before": anchor, "after": f"{pos}: {text}"})
+                    body = body[:semi + 1] + " " + text + body[semi + 1:]
+                    continue
                 cnt = body.count(anchor)
                 if cnt != 1:
                     # a proof hint that cannot be placed is skipped (soft anchor): without it the obligation may fail,
@@ -808,6 +873,11 @@ def generate(unit, template_path, canary=False):
             if spec.get("prologue"):
                 g.rewrites.append({"rule": "R10", "where": where, "before": "{", "after": "{ " + spec["prologue"].strip()})
                 body = "{ " + spec["prologue"].strip() + body[1:]
+            if spec.get("epilogue"):
+                # R10: proof text placed before the closing brace of the body (only sound for bodies whose last
+                # statement ends with `;` - i.e. unit-valued blocks such as match arms)
+                g.rewrites.append({"rule": "R10", "where": where, "before": "}", "after": spec["epilogue"].strip() + " }"})
+                body = body[:-1] + " " + spec["epilogue"].strip() + " }"
             if canary:
                 # vacuity canary: `assert(false)` right after the prologue must FAIL, i.e. the function's
                 # requires together with the axioms in scope must be satisfiable
